@@ -35,6 +35,7 @@ package main
 //@ func ReadKeyFromFile
 //@   props C09 C11
 //@   allocs Arr:Int
+//@   assigns envOps
 //@   sets havePersisted := havePersisted || result1 == nil
 //@   sets persistedKey := ite(result1 == nil, b64dec(bstr(fsData[filePath])), persistedKey)
 //@   ensures no-write {C11}: fsWrites == old(fsWrites) && fsKind == old(fsKind) && fsData == old(fsData) && effects == old(effects)
@@ -48,13 +49,14 @@ package main
 //@ func WriteKeyToFile
 //@   props C11
 //@   allocs Arr:Int
-//@   assigns effects, fsWrites, fsKind, fsData, fsPerm
+//@   assigns effects, envOps, fsWrites, fsKind, fsData, fsPerm
 //@   sets havePersisted := havePersisted || result == nil
 //@   sets persistedKey := ite(result == nil, mkbytes(elems(key), off(key), len(key)), persistedKey)
 //@   ensures length {C11}: implies(len(key) != 64, result != nil && fsWrites == old(fsWrites) && fsKind == old(fsKind) && fsData == old(fsData))
 //@   ensures stored {C11}: implies(result == nil, fsKind[filePath] == 1 && fsData[filePath] == sbytes(b64enc(mkbytes(elems(key), off(key), len(key)))))
 //@   ensures mode {C11}: implies(result == nil && old(fsKind)[filePath] == 0, fsPerm[filePath] == 384)
 //@   ensures only-this-path {C11}: implies(result == nil, fsWrites == store(old(fsWrites), filePath, old(fsWrites)[filePath] + 1))
+//@   ensures directory-untouched {C11}: implies(old(fsKind)[filePath] == 2, result != nil && fsWrites == old(fsWrites) && fsKind == old(fsKind) && fsData == old(fsData))
 
 //@ func GenerateKey
 //@   props C11
@@ -71,3 +73,200 @@ package main
 //@   ensures fail-closed {C10}: implies(shouldEncrypt && encryptionKey != nil, result == nonEncryptedValue || result == b64enc(daeadEnc(mkbytes(elems(encryptionKey), off(encryptionKey), len(encryptionKey)), sbytes(s), noBytes)))
 //@   ensures ciphertext {C09,C10}: implies(shouldEncrypt && encryptionKey != nil && len(encryptionKey) == 64, result == nonEncryptedValue || result == b64enc(daeadEnc(mkbytes(elems(encryptionKey), off(encryptionKey), len(encryptionKey)), sbytes(s), noBytes)))
 //@   ensures placeholder {C10}: implies(!(shouldEncrypt && encryptionKey != nil), result == nonEncryptedValue)
+
+// placeholders until the walkers are under contract (L2/L3): used by callers, body not verified yet
+//@ func RedactMongoLog
+//@   trusted
+//@   assigns GoMaps
+//@   allocs Arr:Val, Arr:Str, Arr:Int
+
+//@ func MarshalOrdered
+//@   trusted
+//@   allocs Arr:Int
+
+// ---------------------------------------------------------------------------------------------
+// reader.go
+// ---------------------------------------------------------------------------------------------
+
+//@ func addOneToBar
+//@   props C07 C08
+//@   assigns nothing
+
+//@ func processMongoLogStream
+//@   props C08
+//@   safety C07
+//@   assigns GoMaps, wfail, scanErr, outN, stderrN
+//@   requires: !wfail && !scanErr
+//@   loop 1 invariant io-ok {C08}: !wfail && !scanErr
+//@   loop 1 invariant out-grows: outN >= old(outN)
+//@   ensures no-silent-failure {C08}: implies(result == nil, !wfail && !scanErr)
+//@   ensures only-io-aborts {C07}: implies(result != nil, wfail || scanErr)
+//@   ensures out-grows: outN >= old(outN)
+//@   ensures open-unchanged: openFail == old(openFail)
+
+//@ func ProcessMongoLogFile
+//@   props C08
+//@   safety C07
+//@   assigns GoMaps, wfail, scanErr, openFail, outN, stderrN, envOps
+//@   requires: !wfail && !scanErr && !openFail
+//@   requires key-in-use-is-the-persisted-one {C11}: implies(shouldEncrypt && encryptionKey != nil, havePersisted && persistedKey == mkbytes(elems(encryptionKey), off(encryptionKey), len(encryptionKey)))
+//@   ensures no-silent-failure {C08}: implies(result == nil, !wfail && !scanErr && !openFail)
+//@   ensures out-grows: outN >= old(outN)
+//@   ensures touched-environment: envOps > old(envOps)
+
+//@ func ProcessMongoLogFileFromReader
+//@   props C08
+//@   safety C07
+//@   assigns GoMaps, wfail, scanErr, outN, stderrN, envOps
+//@   requires: !wfail && !scanErr
+//@   requires key-in-use-is-the-persisted-one {C11}: implies(shouldEncrypt && encryptionKey != nil, havePersisted && persistedKey == mkbytes(elems(encryptionKey), off(encryptionKey), len(encryptionKey)))
+//@   sets envOps := envOps + 1
+//@   ensures no-silent-failure {C08}: implies(result == nil, !wfail && !scanErr)
+//@   ensures out-grows: outN >= old(outN)
+//@   ensures open-unchanged: openFail == old(openFail)
+
+//@ func GetStartAndEndDates
+//@   props C16
+//@   arith
+//@   requires: atlasLogStartDate >= 0 - 4611686018427387904 && atlasLogStartDate <= 4611686018427387904 && atlasLogEndDate >= 0 - 4611686018427387904 && atlasLogEndDate <= 4611686018427387904
+//@   ensures window-default {C16}: implies(old(atlasLogStartDate) == 0 && old(atlasLogEndDate) == 0, result0 == nowUnix - 604800 && result1 == nowUnix && result0 < result1)
+//@   ensures window-given {C16}: implies(old(atlasLogStartDate) != 0 && old(atlasLogEndDate) != 0, result0 == old(atlasLogStartDate) && result1 == old(atlasLogEndDate))
+
+// ---------------------------------------------------------------------------------------------
+// helpers.go (file system helper)
+// ---------------------------------------------------------------------------------------------
+
+//@ func FileExists
+//@   props C11
+//@   may_panic
+//@   sets envOps := envOps + 1
+//@   ensures absent {C11}: implies(fsKind[filename] == 0, !result)
+//@   ensures regular {C11}: implies(fsKind[filename] == 1, result)
+//@   ensures directory {C11}: implies(fsKind[filename] == 2, !result)
+//@   ensures kinds: fsKind[filename] >= 0 && fsKind[filename] <= 3
+
+//@ func countLines
+//@   trusted
+//@   sets envOps := envOps + 1
+//@   allocs Arr:Int
+
+// ---------------------------------------------------------------------------------------------
+// atlas.go
+// ---------------------------------------------------------------------------------------------
+
+//@ func NewAtlasClient
+//@   props C16
+//@   ensures endpoint {C16}: result != nil && result.BaseURL == "https://cloud.mongodb.com" && result.HTTPClient != nil
+
+//@ func (*AtlasClient).DeleteClusterLogs
+//@   props C17
+//@   assigns tmp, stderrN, wfail
+//@   loop 1 invariant removed {C17}: tmp == minus(old(tmp), elemsS(elems(logFiles), off(logFiles), _idx))
+//@   loop 1 invariant frame: unchangedBelow("Arr:Str") && heapTop >= old(heapTop) && (base(errs) == 0 || base(errs) > old(heapTop))
+//@   ensures removed-all {C17}: tmp == minus(old(tmp), elemsS(elems(logFiles), off(logFiles), len(logFiles)))
+
+//@ func (*AtlasClient).downloadClusterLogsForHost
+//@   props C17 C16
+//@   requires: c != nil && c.HTTPClient != nil
+//@   assigns tmp, effects, envOps, reqs, reqURL, stderrN
+//@   ensures no-leftover-on-error {C17}: implies(result1 != nil, tmp == old(tmp))
+//@   ensures registered-on-success {C17}: implies(result1 == nil, tmp == add(old(tmp), result0))
+//@   ensures one-request {C16}: reqs == old(reqs) || reqs == seqPush(old(reqs), sprintf5("%s/api/atlas/v2/groups/%s/clusters/%s/logs/mongodb.gz?endDate=%d&startDate=%d", VStr(c.BaseURL), VStr(projectID), VStr(host), VInt(endDate), VInt(startDate)))
+//@   ensures one-request-on-success {C16}: implies(result1 == nil, reqs == seqPush(old(reqs), sprintf5("%s/api/atlas/v2/groups/%s/clusters/%s/logs/mongodb.gz?endDate=%d&startDate=%d", VStr(c.BaseURL), VStr(projectID), VStr(host), VInt(endDate), VInt(startDate))))
+//@   ensures touched-environment: envOps > old(envOps)
+
+//@ func (*AtlasClient).getAtlasClusterInfo
+//@   props C16
+//@   requires: c != nil && c.HTTPClient != nil
+//@   assigns effects, envOps, reqs, reqURL
+//@   ensures one-request {C16}: reqs == old(reqs) || reqs == seqPush(old(reqs), sprintf3("%s/api/atlas/v2/groups/%s/clusters/%s", VStr(c.BaseURL), VStr(projectID), VStr(clusterName)))
+//@   ensures nil-on-error: implies(result1 != nil, result0 == nil)
+//@   ensures info-on-success: implies(result1 == nil, result0 != nil)
+//@   ensures touched-environment: envOps > old(envOps)
+
+//@ func GetHostsFromConnectionString
+//@   props C16
+//@   allocs Arr:Str
+//@   loop 1 invariant source-unchanged: shift(selems(cs.Hosts), off(cs.Hosts)) == hostSeq(connectionString) && len(cs.Hosts) == hostCount(connectionString)
+//@   loop 1 invariant hosts-so-far {C16}: MapStrip(hostSeq(connectionString), 0, elems(hosts), off(hosts), _idx) && len(hosts) == _idx
+//@   loop 1 invariant frame: unchangedBelow("Arr:Str") && base(hosts) > base(cs.Hosts) && base(hosts) > old(heapTop) && cap(hosts) == len(cs.Hosts) && _idx <= len(cs.Hosts)
+//@   ensures srv {C16}: implies(result1 == nil && schemeOf(connectionString) == "mongodb+srv", len(result0) == hostCount(connectionString) && shift(selems(result0), off(result0)) == hostSeq(connectionString))
+//@   ensures hosts-in-order-ports-stripped {C16}: implies(result1 == nil && schemeOf(connectionString) != "mongodb+srv", len(result0) == hostCount(connectionString) && MapStrip(hostSeq(connectionString), 0, elems(result0), off(result0), len(result0)))
+//@   ensures nil-on-error: implies(result1 != nil, result0 == nil)
+
+//@ func (*AtlasClient).DownloadClusterLogs
+//@   props C17 C16
+//@   requires: c != nil && c.HTTPClient != nil
+//@   assigns tmp, effects, envOps, reqs, reqURL, stderrN, wfail
+//@   loop 1 invariant registered {C17}: tmp == union(old(tmp), elemsS(elems(logFiles), off(logFiles), len(logFiles)))
+//@   loop 1 invariant frame: unchangedBelow("Arr:Str") && (base(logFiles) == 0 || base(logFiles) > old(heapTop)) && envOps > old(envOps)
+//@   ensures no-leftover-on-error {C17}: implies(result1 != nil, subset(tmp, old(tmp)))
+//@   ensures registered-on-success {C17}: implies(result1 == nil, tmp == union(old(tmp), elemsS(elems(result0), off(result0), len(result0))))
+//@   ensures touched-environment: envOps > old(envOps)
+
+// ---------------------------------------------------------------------------------------------
+// main.go
+// ---------------------------------------------------------------------------------------------
+
+//@ func SetRedactedFieldsRegexp
+//@   may_panic
+//@   assigns redactedFieldsRegexp
+//@   ensures: (re == "") == (redactedFieldsRegexp == nil)
+
+//@ func main$1$1
+//@   props C17
+//@   assigns tmp, stderrN, wfail
+//@   ensures cleanup {C17}: tmp == minus(old(tmp), elemsS(elems(*files), off(*files), len(*files)))
+
+//@ func main$2
+//@   props C09
+//@   requires: len(args) == 1
+//@   exit_requires nonzero {C09}: code != 0
+//@   exit_requires no-value-printed {C09}: printedN == old(printedN)
+//@   ensures prints-the-decryption {C09}: printedN == old(printedN) + 1 && printed == sconcat("Raw value: ", bstr(daeadDec(b64dec(bstr(fsData[*decryptionKeyFile])), b64dec(args[0]), noBytes)))
+//@   ensures only-when-everything-checks {C09}: fsKind[*decryptionKeyFile] == 1 && b64ok(bstr(fsData[*decryptionKeyFile])) && blen(b64dec(bstr(fsData[*decryptionKeyFile]))) == 64 && b64ok(args[0]) && daeadDecOK(b64dec(bstr(fsData[*decryptionKeyFile])), b64dec(args[0]), noBytes)
+
+//@ func main$1
+//@   props C18
+//@   local file := len(args) == 1
+//@   local piped := bitand(fmode(statOf(os.Stdin)), 2097152) == 0
+//@   local proj := *atlasProjectId != ""
+//@   local clu := *atlasClusterName != ""
+//@   local start := *atlasLogStartDate != 0
+//@   local end := *atlasLogEndDate != 0
+//@   local pubF := *atlasPublicKey != ""
+//@   local privF := *atlasPrivateKey != ""
+//@   local pubE := getenv("ATLAS_PUBLIC_KEY") != ""
+//@   local privE := getenv("ATLAS_PRIVATE_KEY") != ""
+//@   local out := *outputFile != ""
+//@   local enc := *encrypt
+//@   local re := *redactedFieldsRegexp != ""
+//@   local fn := len(*eagerRedactionPaths) > 0
+//@   local atlas := proj || clu || start || end || pubF || privF
+//@   local oneSource := (file && !piped && !atlas) || (!file && piped && !atlas) || (!file && !piped && atlas)
+//@   local WD := oneSource && implies(atlas, proj && clu && out && (pubF || pubE) && (privF || privE)) && start == end && implies(enc, !piped && out) && !(re && fn)
+//@   local kf := *encryptionKeyFile
+//@   local encOn := enc && kf != ""
+//@   local keyValid := fsKind[kf] == 1 && b64ok(bstr(fsData[kf])) && blen(b64dec(bstr(fsData[kf]))) == 64
+//@   requires: effects == 0 && envOps == 0 && stderrN == 0 && tmp == emptyset && !wfail && !scanErr && !openFail && !havePersisted
+//@   requires: len(args) <= 1
+//@   loop 1 invariant temp-files {C17}: tmp == elemsS(elems(files), off(files), len(files)) && !wfail && !scanErr && !openFail
+//@   loop 1 invariant ops {C18}: effects > 0 && envOps > 0 && outN >= old(outN) && fsWrites == old(fsWrites)
+//@   loop 1 invariant key {C11}: implies(shouldEncrypt && encryptionKey != nil, havePersisted && persistedKey == mkbytes(elems(encryptionKey), off(encryptionKey), len(encryptionKey)))
+//@   loop 1 invariant cfg {C01}: redactedString == *replacement && G.redactNumbers == *redactNumbers && G.redactBooleans == *redactBooleans && G.redactIPs == *redactIPs && G.redactNamespaces == *redactNamespaces && G.eagerRedactionPaths == *eagerRedactionPaths && (G.redactedFieldsRegexp == nil) == (*redactedFieldsRegexp == "")
+//@   exit_requires nonzero {C18,C08}: code != 0
+//@   exit_requires sound {C18}: implies(!WD, effects == 0)
+//@   exit_requires message {C18}: implies(!WD, stderrN > 0)
+//@   exit_requires complete {C18}: implies(WD, envOps > 0)
+//@   ensures accepted-only-if-well-defined {C18}: WD
+//@   ensures success-means-no-io-failure {C08}: !wfail && !scanErr && !openFail
+//@   exit_requires no-temp-left {C17}: tmp == emptyset
+//@   ensures no-temp-left {C17}: tmp == emptyset
+//@   exit_requires existing-key-file-untouched {C11}: implies(encOn && old(fsKind)[kf] != 0, fsWrites == old(fsWrites) && fsKind[kf] == old(fsKind)[kf] && fsData[kf] == old(fsData)[kf])
+//@   ensures existing-key-file-untouched {C11}: implies(encOn && old(fsKind)[kf] != 0, fsWrites == old(fsWrites) && fsKind[kf] == old(fsKind)[kf] && fsData[kf] == old(fsData)[kf])
+//@   exit_requires unusable-key-no-output {C11}: implies(encOn && old(fsKind)[kf] != 0 && !keyValid, outN == old(outN))
+//@   ensures unusable-key-never-succeeds {C11}: !(encOn && old(fsKind)[kf] != 0 && !keyValid)
+//@   ensures new-key-stored {C11}: implies(encOn && old(fsKind)[kf] == 0, fsKind[kf] == 1 && fsPerm[kf] == 384 && havePersisted && fsData[kf] == sbytes(b64enc(persistedKey)) && blen(persistedKey) == 64)
+//@   at_call ProcessMongoLogFile wiring {C01}: redactedString == *replacement && G.redactNumbers == *redactNumbers && G.redactBooleans == *redactBooleans && G.redactIPs == *redactIPs && G.redactNamespaces == *redactNamespaces && G.eagerRedactionPaths == *eagerRedactionPaths && (G.redactedFieldsRegexp == nil) == (*redactedFieldsRegexp == "")
+//@   at_call ProcessMongoLogFileFromReader wiring {C01}: redactedString == *replacement && G.redactNumbers == *redactNumbers && G.redactBooleans == *redactBooleans && G.redactIPs == *redactIPs && G.redactNamespaces == *redactNamespaces && G.eagerRedactionPaths == *eagerRedactionPaths && (G.redactedFieldsRegexp == nil) == (*redactedFieldsRegexp == "")
+//@   at_call ProcessMongoLogFile encrypt-wiring {C01,C10}: implies(enc && kf != "", shouldEncrypt && encryptionKey != nil)
